@@ -191,7 +191,8 @@ def gen_raw(seed):
         ch += [-1] * (nloc - len(ch))
         if rng.random() < 0.3 and nloc >= 2:
             ch[int(rng.integers(0, nloc))] = -1
-            ch = sorted(ch, key=lambda c: c == -1)
+            if rng.random() < 0.7:
+                ch = sorted(ch, key=lambda c: c == -1)        # (otherwise a -1 stays in the middle of the row, next to the padding at its end)
         rows.append(ch)
     common = rng.permutation(nc)[:int(rng.integers(1, (nc if not wide else 5) + 1))].tolist()
     if rng.random() < 0.4:
@@ -251,6 +252,14 @@ def _raw(case, ctx, d):
         ctx.violation('open_raised', desc, 'opening the recording raised %r' % r.exc, feats, tb=r.tb)
         return
     rd = r.value
+    if g['backend'] != 'cbin' and nc_ >= 2 and nc_ <= 16 and (n + nc_) % 7 == 3:
+        # the recording handed to the routes is a derived reader: per-channel gains, then a channel permutation
+        gains = np.arange(1, nc_ + 1).astype(A.dtype)          # (same type as the samples: the reader's declared dtype stays true)
+        perm = np.arange(nc_)[::-1]
+        rd = (rd * gains)[:, perm]
+        A = (A * gains)[:, perm]
+        monitors.CURRENT.readers.register(rd, lambda A=A: A, allow_list=True, label='derived')
+        ctx.cell('derived_reader', 'gains_then_permutation')
     # ---- route (a): direct extraction, one channel list for all spikes --------------------------
     common = np.array(g['common']) if g['common_as_array'] else list(g['common'])
     exp = windows(A, samples, nsw, [g['common']] * len(samples))
